@@ -27,6 +27,10 @@ func (m MessageWriter) HasField(field uint16) bool {
 
 // Copy copies absent fields from the given message.
 func (m MessageWriter) Copy(src types.Message) error {
+	if m.w.err != nil {
+		return m.w.err // also when the source has no fields to copy
+	}
+
 	n := src.Fields()
 
 	for i := 0; i < n; i++ {
